@@ -42,6 +42,11 @@ def equilateral_patch():
     return v, t
 
 
+def fc_min_quality(v, t):
+    from .. import femcommon as fc
+    return fc.min_tria_quality(v, t)
+
+
 def generate(rng, tier):
     cases = []
     n = 90 if tier == "quick" else 900
@@ -72,6 +77,11 @@ def generate(rng, tier):
         elif r < 0.35:
             v = (np.array(v) + np.array([rng.choice([10.0, 1e3]), -7.0, 3.0])).tolist()
         vd = "float32" if rng.random() < 0.15 and fam != "zigzag" else "float64"
+        if vd == "float64" and fam not in ("zigzag", "equilateral") and rng.random() < 0.12:
+            # voxel-grid coordinates stored as integers
+            vi = np.round(np.array(v) * 8.0)
+            if fc_min_quality(vi.tolist(), t) > 0.05:
+                v, vd = vi.tolist(), "int64"
         if vd == "float32":
             v = np.array(v, dtype=np.float32).astype(float).tolist()
         cases.append({"kind": "tria", "family": fam, "v": v, "t": t, "vdtype": vd, "d": rng.choice([0.1, -0.1, 0.5, -2.0]),
